@@ -37,6 +37,7 @@ OPAQUE_CIRCUIT = {(CC, 'transform_circuit'), (CC, 'frequency_components'), ('Net
 
 def init_self(prog, ev, m, cls, self_atom='self'):
     """run __post_init__ (or __init__) symbolically on an atom `self`; stores are kept in ev.stores"""
+    ev.self_class = (m, cls)
     mem = prog.find_member(m, cls, '__post_init__')
     if mem and isinstance(mem[1], ast.FunctionDef):
         ev.call_fn(mem[1], mem[0], [A(self_atom)], {}, {'__parent__': None}, 1)
@@ -44,6 +45,7 @@ def init_self(prog, ev, m, cls, self_atom='self'):
 
 
 def method_term(prog, ev, m, cls, name, args):
+    ev.self_class = (m, cls)
     mem = prog.find_member(m, cls, name)
     if not mem or not isinstance(mem[1], ast.FunctionDef):
         raise AnalysisError(f'{cls.name}.{name} not found')
